@@ -49,6 +49,54 @@ def IsAllowedPlacement (n m : Nat) (splitBad mustSame : Nat → Bool) (c : List 
   IsPlacement n m c ∧ (∀ x ∈ c, splitBad x = false) ∧
   (∀ j, j + 1 < c.length → mustSame (j + 1) = true → c.getD j 0 = c.getD (j + 1) 0)
 
+/-! ### `generate` for models with disallowed successors (successor constraint, model API) -/
+
+/-- The Go `generate` when the model has disallowed successors and no direct arcs: `src` = the unit's stops still to
+place (in the order tried), `tgt` = the target route from the vehicle's first to its last stop, `m = tgt.length - 1` gaps,
+`dis a b` = b must not directly follow a, `prev` = (gap, stop) of the unit's stop placed last.
+For the gap `g` tried for stop `s`: the PREVIOUS unit stop is now followed by `s` (same gap) or by the planned stop behind
+its gap (another gap) — that pair must be allowed; and `s` must be allowed behind the stop in front of it. Whether the stop
+behind the LAST unit stop is allowed is not looked at here (the constraint's estimate does that).
+`asGiven`: the code before the repair of E41 gave up on the stop altogether when the previous unit stop and `s` must not be
+neighbours (instead of trying `s` further down). -/
+def genDisFrom (asGiven : Bool) (dis : Nat → Nat → Bool) (tgt : List Nat) (m : Nat) :
+    List Nat → Option (Nat × Nat) → List (List Nat)
+  | [], _ => [[]]
+  | s :: rest, prev =>
+    let lo := match prev with
+      | some (pg, _) => pg
+      | none => 1
+    ((List.range' lo (m + 1 - lo)).filter (fun g =>
+        (match prev with
+          | some (pg, ps) =>
+            (if g = pg then !(dis ps s) else !(dis ps (tgt.getD pg 0))) && !(asGiven && dis ps s)
+          | none => true) &&
+        !(dis (match prev with
+          | some (pg, ps) => if g = pg then ps else tgt.getD (g - 1) 0
+          | none => tgt.getD (g - 1) 0) s))).flatMap
+      (fun g => (genDisFrom asGiven dis tgt m rest (some (g, s))).map (g :: ·))
+
+def genDis (dis : Nat → Nat → Bool) (src tgt : List Nat) : List (List Nat) :=
+  genDisFrom false dis tgt (tgt.length - 1) src none
+
+def genDisGiven (dis : Nat → Nat → Bool) (src tgt : List Nat) : List (List Nat) :=
+  genDisFrom true dis tgt (tgt.length - 1) src none
+
+/-- the stop in front of unit stop `j` under placement `c` -/
+def prevElem (src tgt c : List Nat) (j : Nat) : Nat :=
+  if j > 0 ∧ c.getD j 0 = c.getD (j - 1) 0 then src.getD (j - 1) 0 else tgt.getD (c.getD j 0 - 1) 0
+
+/-- the stop behind unit stop `j` under placement `c` -/
+def nextElem (src tgt c : List Nat) (j : Nat) : Nat :=
+  if j + 1 < c.length ∧ c.getD (j + 1) 0 = c.getD j 0 then src.getD (j + 1) 0 else tgt.getD (c.getD j 0) 0
+
+/-- What `genDis` must enumerate: the ascending placements in which no unit stop directly follows a stop it must not
+follow and no unit stop but the last is directly followed by a stop that must not follow it. -/
+def IsAllowedDis (dis : Nat → Nat → Bool) (src tgt c : List Nat) : Prop :=
+  IsPlacement src.length (tgt.length - 1) c ∧
+  (∀ j, j < src.length → dis (prevElem src tgt c j) (src.getD j 0) = false) ∧
+  (∀ j, j + 1 < src.length → dis (src.getD j 0) (nextElem src tgt c j) = false)
+
 /-! ### Selecting the best move -/
 
 structure Cand where
